@@ -44,13 +44,24 @@ func (eval Evaluator) EvaluateMany(ctIn *rlwe.Ciphertext, linearTransformations 
 
 	ctPreRot := map[int]*rlwe.Element[ringqp.Poly]{}
 
+	var decompOverwritten bool
+
 	for i, lt := range linearTransformations {
+
+		// The giant-step gadget products of MultiplyByDiagMatrixBSGS overwrite BuffDecompQP:
+		// the hoisted decomposition of ctIn must be recomputed before it is used again.
+		if decompOverwritten {
+			eval.DecomposeNTT(levelQ, levelP, levelP+1, ctIn.Value[1], ctIn.IsNTT, BuffDecompQP)
+			decompOverwritten = false
+		}
 
 		if lt.N1 == 0 {
 			if err = eval.MultiplyByDiagMatrix(ctIn, lt, BuffDecompQP, opOut[i]); err != nil {
 				return
 			}
 		} else {
+
+			decompOverwritten = true
 
 			_, _, rotN2 := lt.BSGSIndex()
 
